@@ -58,6 +58,7 @@ type recWriter struct {
 	// failEvery > 0: every failEvery-th Write reports a transient failure (short write, EAGAIN, timeout) after having been
 	// handed the whole line: the logger must not react with further Write calls for that record
 	failEvery int
+	unwind    bool // among the failures also: Write panics / Write calls runtime.Goexit (it never returns)
 	nwrites   atomic.Int64
 }
 
@@ -85,7 +86,15 @@ func (w *recWriter) Write(p []byte) (int, error) {
 	}
 	w.inside.Add(-1)
 	if n := w.nwrites.Add(1); w.failEvery > 0 && n%int64(w.failEvery) == 0 {
-		switch (n / int64(w.failEvery)) % 8 {
+		kinds := int64(8)
+		if w.unwind {
+			kinds = 10
+		}
+		switch (n / int64(w.failEvery)) % kinds {
+		case 8:
+			panic("injected: the destination's Write panics")
+		case 9:
+			runtime.Goexit() // e.g. t.Fatal in a test sink: the goroutine unwinds, deferred calls run, Write never returns
 		case 4:
 			return 0, errors.New("injected: disk full")
 		case 5:
@@ -254,6 +263,7 @@ type scenario struct {
 	colorful  bool
 	addSource bool
 	failEvery int  // destination reports a transient error for every n-th Write
+	unwind    bool // … or does not return at all: panic (recovered around the logging call) / runtime.Goexit (call made on a joined helper goroutine)
 	presolo   bool // the solo lines are made BEFORE the run, on an emptied buffer pool (two GCs)
 	noFmtWait bool // formatting happens under the lock in this build (probe): do not wait for formatters behind a held lock
 }
@@ -377,6 +387,9 @@ func (sc *scenario) describe() string {
 	fmt.Fprintf(&sb, "%s/%s/threshold=%d/threads=%d/colour=%v/source=%v/", sc.kind, sc.name, sc.threshold, sc.nthr, sc.colorful, sc.addSource)
 	if sc.failEvery > 0 {
 		fmt.Fprintf(&sb, "writer-fails-every=%d/", sc.failEvery)
+		if sc.unwind {
+			sb.WriteString("incl-panic-and-Goexit-in-Write/")
+		}
 	}
 	sb.WriteString("handlers=")
 	for i, h := range sc.handlers {
@@ -416,6 +429,7 @@ func (sc *scenario) describe() string {
 func execute(e *hk.Env, sc *scenario) outcome {
 	w := newRecWriter()
 	w.failEvery = sc.failEvery
+	w.unwind = sc.unwind
 	g := newGate()
 	root := rootNode(lg.NewHandlerOpts(sc.kind, w, sc.threshold, sc.colorful, sc.addSource))
 	hs := make([]node, len(sc.handlers))
@@ -483,7 +497,19 @@ func execute(e *hk.Env, sc *scenario) outcome {
 			<-ready[r.hidx]
 			// C02 does not constrain the error value Handle returns: while faults are injected any error is accepted
 			// (wrapped, annotated, replaced); without injected faults an error is reported
-			if err := r.emit(hs[r.hidx], g); err != nil && sc.failEvery == 0 {
+			var err error
+			if sc.unwind {
+				// the logging call runs on a helper goroutine that is joined: Write may end it with runtime.Goexit
+				fin := make(chan struct{})
+				go func() {
+					defer close(fin)
+					err = r.emit(hs[r.hidx], g)
+				}()
+				<-fin
+			} else {
+				err = r.emit(hs[r.hidx], g)
+			}
+			if err != nil && sc.failEvery == 0 {
 				errMu.Lock()
 				errs = append(errs, err.Error())
 				errMu.Unlock()
@@ -607,7 +633,7 @@ func execute(e *hk.Env, sc *scenario) outcome {
 	go func() { wg.Wait(); close(allDone) }()
 	select {
 	case <-allDone:
-	case <-time.After(scenarioDeadline):
+	case <-time.After(sc.deadline()):
 		// open every gate of the harness, then look again
 		if sc.gateWrite {
 			select {
@@ -633,7 +659,11 @@ func execute(e *hk.Env, sc *scenario) outcome {
 		case <-allDone:
 		case <-time.After(2 * time.Second):
 			deadlocks++
-			e.Case("VIOL", "c02", "deadlock", "scenario="+strings.ReplaceAll(sc.describe(), " ", "_"), "goroutines="+goroutineStates())
+			what := "deadlock"
+			if sc.unwind {
+				what = fmt.Sprintf("record-never-written-after-writer-panic(writes=%d)", w.count())
+			}
+			e.Case("VIOL", "c02", what, "scenario="+strings.ReplaceAll(sc.describe(), " ", "_"), "goroutines="+goroutineStates())
 			e.Case("E", strconv.Itoa(int(sc.kind)), strconv.Itoa(sc.nthr), "0", "0", "W:0:0")
 			return outcome{bad: 1}
 		}
@@ -731,6 +761,15 @@ func execute(e *hk.Env, sc *scenario) outcome {
 }
 
 var scenarioDeadline = 20 * time.Second
+
+// with an unwinding writer a hang is the expected symptom of a lock that is not released by defer: wait less
+func (sc *scenario) deadline() time.Duration {
+	if sc.unwind {
+		return 6 * time.Second
+	}
+	return scenarioDeadline
+}
+
 var deadlocks int
 
 var reGoroutine = regexp.MustCompile(`(?m)^goroutine \d+ \[([^\]]+)\]:\n((?:.+\n)+)`)
@@ -1039,6 +1078,7 @@ func run(e *hk.Env) error {
 		sc.colorful, sc.addSource = r.Chance(25), r.Chance(45)
 		if (sc.name == "free" || sc.name == "stress" || sc.name == "gated-writer" || sc.name == "residue" || sc.name == "parked-formatter") && r.Chance(35) {
 			sc.failEvery = 1 + r.Intn(4) // every n-th Write reports a failure: transient, generic, closed file / pipe, EPIPE
+			sc.unwind = r.Chance(50)     // … or panics / Goexits
 		}
 		sc.noFmtWait = fmtUnderLock[sc.kind]
 		if sc.noFmtWait && sc.name == "parked-formatter" {
